@@ -9,10 +9,19 @@ LEVEL_TEXT = ("Lean theorems over a fault model of the time-limited blocks whose
               "timeout first, which multi-list appends it performs): for every fault point in every block the handler leaves the function's string equal "
               "to the committed one, make_changes commits nothing for it, and the committed library triple is unchanged — hence sound whenever it was. "
               "The fault model is tied to the code by deterministic injection of genuine SIGALRM timeouts at every distinct (block, statement) site "
-              "of real generation runs (sys.monitoring line events inside ESR's own time_limit), followed by the C03 oracle on the resulting library.")
+              "of real generation runs (sys.monitoring line events inside ESR's own time_limit), followed by the C03 oracle on the resulting library. "
+              "Stale records: a handler that restores string and sympy object but not the chain leaves `chain ++ [nan]`; later blocks of the same call may "
+              "commit it (`runCall`); `fault_schedule_sound_with_verifier` proves for every schedule of faults (any number, the same site in every round) "
+              "that StepSound steps plus a verifier un-merging every row with a marker not justified by a parameter loss (`nanUnjustified`) end in a C03-sound "
+              "row, `verifier_needed` that without the verifier the 2-step schedule of seed C15c publishes an unsound row, and `check_results_shape` "
+              "(decide over the regenerated `verifier` table: parse inside the try, handler un-merges, the only skip is the parameter-count test) that "
+              "today's check_results is such a verifier. Injection also has a PERSISTENT mode: a (block, statement(+twin in the other arm of a flag "
+              "conditional), function selector all/lineage/exact) fault fires in every activation that reaches it - every round, both do_sympy loops, check_results.")
 TECHNIQUE = "Lean 4 proof over an extracted fault/effect model + deterministic timeout injection into real generation runs"
 RULE = ("one case = one generation run with a timeout delivered before the n-th line event of the k-th time_limit activation; sites are the distinct "
-        "(function, with-line, line about to run, previous line) tuples seen in a recording run; non-trivial = the fault actually fired; distinct by site and activation")
+        "(function, with-line, line about to run, previous line) tuples seen in a recording run; or one generation run with a persistent fault "
+        "(block, statement line(s), function selector) firing in every activation that reaches it; non-trivial = a fault actually fired; "
+        "distinct by site and activation / by persistent fault specification")
 EXPLANATION = LEVEL_TEXT
 TRUSTED = ["harness/extractors/fault.py (block/handler/effect extraction: may-analysis of the block bodies, must-analysis of what the handlers undo)",
            "harness/extractors/_norm_c15.py (AST normalisations applied before extraction, each effect-preserving for all inputs: N1 canonical names of the "
@@ -23,14 +32,24 @@ TRUSTED = ["harness/extractors/fault.py (block/handler/effect extraction: may-an
            "library and builtin calls inside the blocks do not change the tracked lists handed to them as elements (`str(sym_fun[i])`, `all_fun.index(str_fun[i])`); "
            "a tracked list handed over whole to anything but a reader builtin or an inlined helper is an extraction error",
            "CPython delivers the Python-level signal handler before the next line of the interrupted frame",
+           "persistent faults: the function of an activation is read from the frame as `L[V]` of the enclosing `for V in range(len(L))` loop (ast of the staged "
+           "source; `keys[j]` in expand_or_factor); when that cannot be read only the selector `all` fires",
+           "Model/Fault.checkRow is a hand model of check_results' per-row decision; the facts tying it to the source are the regenerated `verifier` table "
+           "(harness/extractors/fault.py:analyse_verifier) and the persistent-fault runs through the real check_results",
            "faults are injected at line granularity in simplifier.py frames only; interruption points inside sympy callee frames are covered by the model (any statement may fail anywhere) but not injected"]
-ASSUMPTIONS = ["soundness of completed (non-interrupted) rewrite steps is C03's hypothesis StepSound, sampled by the oracle"]
+ASSUMPTIONS = ["soundness of completed (non-interrupted) rewrite steps is C03's hypothesis StepSound, sampled by the oracle",
+               "StepSound.interrupted (what an interrupted step leaves in the chain is harmless for exactness or is the marker) and `rewriting never adds "
+               "parameters` are hypotheses of fault_schedule_sound_with_verifier, sampled by the persistent-fault injection + C03 oracle"]
 # When the translator cannot read today's blocks the committed table stands in as a hand-written fault model; what ties it to
 # the code is then the exhaustive dynamic oracle below, which does not use the table at all: a genuine SIGALRM at every distinct
 # (block, statement) site of real generation runs (all sites, thorough plan) + completion + the C03 library oracle.
 FALLBACK = {'Fault': 'genuine SIGALRM injected at every distinct (block, statement) site of real generation runs (thorough plan: every site, two activations, '
                      'pairs of faults), generation must complete and the resulting library must pass the C03 oracle'}
 MODELLED = ["simplifier.py:sympy_simplify", "simplifier.py:expand_or_factor", "simplifier.py:check_results", "simplifier.py:make_changes"]
+
+# persistent-fault campaign: (basis, complexity) -> (lineage selectors at sites next to a recording statement, at other sites, exact selectors too?)
+PERSIST_PLAN_QUICK = {("core_maths", 2): (8, 2, False), ("core_maths", 3): (8, 2, False)}
+PERSIST_PLAN_DEEP = {("core_maths", 2): (8, 2, True), ("core_maths", 3): (8, 2, False), ("core_maths", 4): (1, 0, False), ("ext_maths", 3): (2, 0, False)}
 
 BASES = {"core_maths": [["x", "a"], ["inv"], ["+", "*", "-", "/", "pow"]],
          "ext_maths": [["x", "a"], ["inv", "sqrt_abs", "square", "exp"], ["+", "*", "-", "/", "pow"]]}
@@ -79,12 +98,59 @@ def _sites(rec):
     return sites
 
 
-def _check_one(ctx, copy, basisname, basis, compl, faults, tag):
-    res = _run(ctx, copy, tag, basis, compl, dict(mode="inject", faults=faults))
-    rp = dict(kind="inject", basis=basisname, compl=compl, faults=faults)
+def _twins(src_text):
+    """line -> lines of the same statement in the other arm of a two-armed conditional (`if expand_fun: X = f(..) else: X = g(..)`):
+    a function that is slow at the one is slow at the other, so a persistent fault site is the whole group."""
+    import ast
+    out = {}
+    try:
+        tree = ast.parse(src_text)
+    except SyntaxError:
+        return out
+    for n in ast.walk(tree):
+        if isinstance(n, ast.If) and n.orelse and len(n.body) == len(n.orelse):
+            for a, b in zip(n.body, n.orelse):
+                if isinstance(a, ast.Assign) and isinstance(b, ast.Assign) and \
+                        [ast.unparse(t) for t in a.targets] == [ast.unparse(t) for t in b.targets]:
+                    g = sorted(set(out.get(a.lineno, [a.lineno])) | set(out.get(b.lineno, [b.lineno])))
+                    for l in g:
+                        out[l] = g
+    return out
+
+
+def _psites(rec, twins):
+    """persistent-fault sites: (fn, with_line, (lines..)) -> sorted function strings that reached one of the lines in the recording run.
+    Every distinct (block, statement) pair is a site; a statement with twins (see _twins) is in addition a site together with them."""
+    src = rec.get("_src") or []
+    sites = {}
+    for a in rec["log"]:
+        for line in set(a["lines"]):
+            if not _deliverable(src, line):
+                continue
+            for grp in {(line,), tuple(twins.get(line, [line]))}:
+                sites.setdefault((a["fn"], a["with_line"], grp), set())
+                if a.get("fid") is not None:
+                    sites[(a["fn"], a["with_line"], grp)].add(a["fid"])
+    return {k: sorted(v) for k, v in sites.items()}
+
+
+def _check_one(ctx, copy, basisname, basis, compl, faults, tag, persist=None):
+    if persist is not None:
+        res = _run(ctx, copy, tag, basis, compl, dict(mode="inject", persist=persist))
+        rp = dict(kind="persist", basis=basisname, compl=compl, persist=persist)
+        faults = "persistently (every activation of %s)" % "; ".join(
+            "%s block at line %d, statement line(s) %s, functions %s" % (
+                p_["fn"], p_["with_line"], p_["lines"],
+                "all" if p_["sel"]["kind"] == "all" else "%s of %s" % (p_["sel"]["kind"], p_["sel"]["seed"])) for p_ in persist)
+    else:
+        res = _run(ctx, copy, tag, basis, compl, dict(mode="inject", faults=faults))
+        rp = dict(kind="inject", basis=basisname, compl=compl, faults=faults)
     fired = res.get("fired", [])
-    out = dict(fired=fired, fails=[])
-    site = ";".join("%s:%d" % (f[2], f[3]) for f in fired) or "none"
+    out = dict(fired=fired, fails=[], nfired=res.get("nfired", len(fired)))
+    if persist is not None:
+        site = "persist:" + ";".join("%s:%s:%s" % (p_["fn"], "+".join(str(l) for l in p_["lines"]), p_["sel"]["kind"]) for p_ in persist)
+    else:
+        site = ";".join("%s:%d" % (f[2], f[3]) for f in fired) or "none"
     if res["rc"] != 0 or res.get("status") != "ok":
         err = (res.get("error") or "")
         kind = err.split(":")[0] if err else str(res["rc"])
@@ -111,6 +177,7 @@ def run(ctx):
             [("core_maths", 2, 2, None, False), ("core_maths", 3, 2, None, False), ("core_maths", 4, 1, None, False), ("ext_maths", 3, 1, None, False),
              ("ext_maths", 4, 1, 60, True)])
     jobs = []
+    pjobs = []
     nsites = {}
     try:
         # statements that record something, as the translator reads them (also inside helpers, whatever the spelling)
@@ -146,21 +213,50 @@ def run(ctx):
             for _ in range(40 if len(allacts) >= 2 else 0):
                 (k1, n1), (k2, n2) = ctx.rng.sample(allacts, 2)
                 jobs.append((basisname, compl, [[k1, ctx.rng.choice(n1)], [k2, ctx.rng.choice(n2)]]))
+        # ---- persistent faults: the same function times out at the same statement EVERY time it gets there ----------------
+        # (every round of both do_sympy loops, and check_results' own block): one fault per run never shows what the handlers
+        # leave behind when the NEXT round cannot repair it either.
+        pplan = PERSIST_PLAN_DEEP if deep else PERSIST_PLAN_QUICK
+        if (basisname, compl) in pplan:
+            nlin_prio, nlin_rest, exact = pplan[(basisname, compl)]
+            ps = _psites(rec, _twins("\n".join(src)))
+            npers = 0
+            for (fn_, wl_, lines_) in sorted(ps):
+                fids = list(ps[(fn_, wl_, lines_)])
+                ctx.rng.shuffle(fids)
+                isprio = len(lines_) > 1 or any(l in mutl or ".append(" in src[l - 1] or (l >= 2 and ".append(" in src[l - 2]) or
+                             any(t in src[l - 1] for t in ("str_fun[i] =", "sym_fun[i] =", "inv_subs_fun[i] =")) for l in lines_)
+                sels = [dict(kind="all")] + [dict(kind="lineage", seed=[f_]) for f_ in fids[:(nlin_prio if isprio else nlin_rest)]]
+                if exact:
+                    sels += [dict(kind="exact", seed=[f_]) for f_ in fids[:2]]
+                for sel in sels:
+                    pjobs.append((basisname, compl, [dict(fn=fn_, with_line=wl_, lines=list(lines_), sel=sel)]))
+                    npers += 1
+            nsites["%s:%d" % (basisname, compl)]["persistent_sites"] = len(ps)
+            nsites["%s:%d" % (basisname, compl)]["persistent_runs"] = npers
     ctx.extra["sites"] = nsites
     fired_sites = set()
-    with cf.ThreadPoolExecutor(max_workers=12) as ex:
+    pfired = set()
+    with cf.ThreadPoolExecutor(max_workers=14) as ex:
         futs = {ex.submit(_check_one, ctx, copy, b, BASES[b], c, f, "j%d" % i): (b, c, f) for i, (b, c, f) in enumerate(jobs)}
+        for i, (b, c, ps_) in enumerate(pjobs):
+            futs[ex.submit(_check_one, ctx, copy, b, BASES[b], c, None, "p%d" % i, ps_)] = (b, c, ps_)
         for fu in cf.as_completed(futs):
             b, c, f = futs[fu]
             r = fu.result()
             ctx.case((b, c, json.dumps(f)), nontrivial=bool(r["fired"]))
+            if f and isinstance(f[0], dict) and r["fired"]:
+                pfired.add((f[0]["fn"], tuple(f[0]["lines"])))
+                ctx.extra["persistent_max_timeouts_in_one_run"] = max(ctx.extra.get("persistent_max_timeouts_in_one_run", 0), r.get("nfired", 0))
             for fi in r["fired"]:
                 fired_sites.add((fi[2], fi[3]))
             for key, what, rp in r["fails"]:
                 ctx.fail(key, what, rp)
             if r["fired"] and not r["fails"]:
-                ctx.sample(dict(basis=b, compl=c, fault=f, fired_at=r["fired"], library="sound", rows=r.get("stats", {}).get("rows")), cap=6)
+                ctx.sample(dict(basis=b, compl=c, fault=f, fired_at=r["fired"][:6], library="sound", rows=r.get("stats", {}).get("rows")), cap=6)
     ctx.extra["fired_sites"] = sorted("%s:%d" % s for s in fired_sites)
+    ctx.extra["persistent_fired_sites"] = sorted("%s:%s" % (fn_, "+".join(map(str, ls))) for fn_, ls in pfired)
+    ctx.extra["persistent_runs"] = len(pjobs)
     ctx.extra["corr_obligations"] = 1
     ctx.extra["corr_discharged"] = int(not ctx.failures)
 
@@ -168,8 +264,8 @@ def run(ctx):
 def replay(ctx, data):
     rp = data["replay"]
     copy = common.fresh_copy(ctx, "c15r")
-    r = _check_one(ctx, copy, rp["basis"], BASES[rp["basis"]], rp["compl"], rp["faults"], "replay")
-    print("fired:", r["fired"])
+    r = _check_one(ctx, copy, rp["basis"], BASES[rp["basis"]], rp["compl"], rp.get("faults"), "replay", persist=rp.get("persist"))
+    print("fired (%d timeouts delivered; first ones):" % r.get("nfired", len(r["fired"])), r["fired"][:12])
     for key, what, _ in r["fails"]:
         print(what)
     return not r["fails"]
